@@ -59,7 +59,7 @@ def expected(i):
     mx = 1853 * F(w["max_frac"])
     e["built_area"] = [min(mx, init if (not w["add"] or m < w["delay"]) else init + (m - w["delay"]) * per) for m in range(N)]
     e["built_cap"] = mx
-    e["growth"] = [100 * (F(d) / 100 + 1) ** 30 for d in w["daily"]]
+    e["growth"] = [100 * (F(d) / 100 + 1) ** 30 for d in w["daily"][:N]]
     st = i["stored"]
     if st["add"]:
         before = F(st["stocks"][(i["start"] - 2) % 12])
@@ -162,7 +162,7 @@ def audit_case(case, failures, stats):
                  f"{float(e['growth'][bad]) if bad >= 0 else len(e['growth'])!r}")
         if any(x < 0 or math.isnan(x) or math.isinf(x) for x in o["growth"]):
             fail("negative-growth", "seaweed growth factors contain a negative or non-finite value")
-        if case["kind"] == "real" and len(o["growth"]) != N and i["seaweed"]["add"]:
+        if len(o["growth"]) != N and len(i["seaweed"]["daily"]) >= N:
             fail("length-growth", f"{len(o['growth'])} seaweed growth factors for NMONTHS={N}")
     # ramps: monotone and capped
     for nm, cap in (("scp", e["scp_cap"]), ("cs", e["cs_cap"]), ("built_area", max(e["built_cap"], 0))):
